@@ -376,8 +376,10 @@ class StringCodec(Codec):
             raise EncodeError("String codec only supports strings")
         if subtypes != ():
             raise EncodeError("string should have no subtypes")
-        Uint64Codec.encode(out, len(val))
-        out.write(val.encode())
+        # The length prefix counts the encoded bytes, not the characters.
+        encoded = val.encode("utf-8")
+        Uint64Codec.encode(out, len(encoded))
+        out.write(encoded)
 
 
 class BoolCodec(Codec):
